@@ -87,6 +87,8 @@ uint64_t job_cloud_kd() {
   c.method = POINT_CLOUD_KD_TREE_ENCODING;
   c.speed_enc = c.speed_dec = 2;
   c.qbits = {10, 0};
+  // explicit quantization: origin and range travel through the string-valued Options (SetVector / GetVector parsing)
+  c.explicit_q[0] = {std::vector<float>{-7.5f, 0.25f, -11.75f}, 64.f};
   return roundtrip_hash(g, c);
 }
 uint64_t job_cloud_seq() {
@@ -94,6 +96,7 @@ uint64_t job_cloud_seq() {
   EncCfg c;
   c.method = POINT_CLOUD_SEQUENTIAL_ENCODING;
   c.qbits = {9, 0};
+  c.explicit_q[0] = {std::vector<float>{-1.5f, -2.25f, -3.f}, 100.f};
   return roundtrip_hash(g, c);
 }
 uint64_t job_mesh_metadata() {
@@ -302,7 +305,10 @@ const Allowed kAllowedObjects[] = {
     {"_ZZN5draco5verif5hooksEvE1h", "thread-local verification hooks (DRACO_VERIF builds only)"},
 };
 const char *kForbiddenRefs[] = {"pthread_", "__cxa_guard_", "__atomic_", "rand", "srand", "random", "time", "getenv", "localtime", "gmtime",
-                                "setlocale", "clock", "gettimeofday", "__tls_get_addr", "std::thread", "_ZNSt6thread", "_ZSt9call_once"};
+                                "setlocale", "clock", "gettimeofday", "__tls_get_addr", "std::thread", "_ZNSt6thread", "_ZSt9call_once",
+                                // C library functions that keep hidden process-wide state between calls (exact names: the _r variants are fine)
+                                "strtok", "drand48", "lrand48", "mrand48", "srand48", "ctime", "asctime", "tmpnam", "tempnam", "mblen", "mbtowc", "wctomb",
+                                "ecvt", "fcvt", "l64a", "setenv", "putenv", "readdir", "getpwnam", "getpwuid", "gethostbyname", "strsignal"};
 // references that exist on the unchanged tree and why they are harmless
 const Allowed kAllowedRefs[] = {
     {"__cxa_guard_acquire", "guards of the two file-factory registries"},
